@@ -132,7 +132,9 @@ RULE = ('stage 1: one translation unit per documented member / overload (constru
         'diagnostic is a violation.  stage 2: sessions on the 12 cipher classes with keying path in {default ctor, key ctor, '
         'set_key full, set_key(ptr,0), set_key(NULL,0), ctor then set_key, ISAP set_key(saved,80), ISAP ctor(saved,80)}, nonce '
         'via set_nonce(len 0..40)/set_counter, 1..6 operations through pointer and byte_array overloads compared with the C '
-        'function under the same key and nonce; hash/hasha/xof<N>/xofa<N> through every overload vs the reference; distinct = '
+        'function under the same key and nonce; set_key on an object that already has a nonce / is mid-session (judged against a control '
+        'object keyed with the final key from the start); bytes_from_hex x3 / bytes_to_hex vs the C codec on valid, whitespace, odd, invalid and '
+        'NUL-containing strings; ISAP save_key vs the C save_key; hash/hasha/xof<N>/xofa<N> through every overload vs the reference; distinct = '
         '(compiler, member) and (build, class, keying path / op kind / overload)')
 ASSUME = ['compilers: g++ 12 (and clang++ 14 in thorough); other compilers are not covered',
           'wrong key lengths are exercised but only counted']
@@ -147,7 +149,8 @@ def run(ctx):
         nprobe = run_probes(ctx, builds[0], ('g++', 'clang++') if ctx.thorough else ('g++',))
     h = with_args(H['cpp'], 'cpp', [], 21000, 400000)
     h['compile_failure_is_violation'] = True
-    return run_matrix(ctx, [h], specs, RULE, assumptions=ASSUME)
+    hx = with_args(H['hex'], 'hex', [], 2500, 60000)      # byte-array helper functions vs the C codec
+    return run_matrix(ctx, [h, hx], specs, RULE, assumptions=ASSUME)
 
 
 def replay(ctx, rec):
